@@ -131,9 +131,39 @@ TOUCHED = {'on': False, 'paths': []}
 _hooked = []
 
 
+def _jail_break(pth):
+  """The path lies outside the check's own scratch tree: the operation is recorded (and reported) but must not really
+  happen - a tree that breaks the property would otherwise leave files all over the machine."""
+  jail = TOUCHED.get('jail')
+  if not jail:
+    return False
+  if isinstance(pth, bytes):
+    pth = pth.decode('utf-8', 'replace')
+  rp = os.path.realpath(pth if os.path.isabs(pth) else os.path.join(os.getcwd(), pth))
+  return rp != jail and not rp.startswith(jail + os.sep)
+
+
 def _audit(event, args):
   if not TOUCHED['on']:
     return
+  _record(event, args)
+  if TOUCHED.get('jail'):
+    if event == 'open' and args and isinstance(args[0], (str, bytes)):
+      mode, flags = (args[1] if len(args) > 1 else None), (args[2] if len(args) > 2 else 0)
+      writing = (isinstance(mode, str) and any(c in mode for c in 'wax+')) or (
+        isinstance(flags, int) and flags & (os.O_WRONLY | os.O_RDWR | os.O_CREAT))
+      if writing and _jail_break(args[0]):
+        raise PermissionError('verif: %r is outside the scratch tree' % (args[0],))
+    elif event in ('os.mkdir', 'os.remove', 'os.rmdir', 'os.chmod', 'os.chown', 'os.truncate', 'os.utime'):
+      if args and isinstance(args[0], (str, bytes)) and _jail_break(args[0]):
+        raise PermissionError('verif: %s(%r) is outside the scratch tree' % (event, args[0]))
+    elif event in ('os.rename', 'os.link', 'os.symlink'):
+      for a in args[:2]:
+        if isinstance(a, (str, bytes)) and _jail_break(a):
+          raise PermissionError('verif: %s(%r) is outside the scratch tree' % (event, a))
+
+
+def _record(event, args):
   if event in ('open', 'os.mkdir', 'os.remove', 'os.rmdir', 'os.chmod', 'os.chown', 'os.truncate', 'os.utime'):
     if args and isinstance(args[0], (str, bytes)):
       TOUCHED['paths'].append((event, args[0]))
@@ -182,6 +212,7 @@ def create_all(arg):
   names += [pre + '/'.join(segs) for pre in ('/a;x=', '/;', '/a.b;t=v', 'a;x=/') for k in (1, 2) for segs in itertools.product(['..', 'a', 'tmp'], repeat=k)]
   for name in names:
       del TOUCHED['paths'][:]
+      TOUCHED['jail'] = os.path.realpath(root)
       TOUCHED['on'] = True
       try:
         if not db.exists(name):
